@@ -59,3 +59,15 @@ package tui
 //@ deadreturns 1 -- `len(r.buffer) == 0` after a successful getBytes, which always appends at least one byte
 //@ requires r != nil
 //@ modifies r.buffer, r.clicks, r.prevDownTime, r.clicks[len(r.clicks):cap(r.clicks)], r.buffer[len(r.buffer):cap(r.buffer)]
+
+// Exit hygiene: disableModes always switches bracketed-paste mode off again ("CSI ?2004l" is written on every
+// path, whether or not mouse reporting was on); counted with a ghost counter.
+//@ func LightRenderer.csi trusted
+//@ func LightRenderer.disableMouse
+//@ requires r != nil
+//@ func LightRenderer.disableModes
+//@ property C14
+//@ requires r != nil
+//@ ghost npaste int
+//@ ghost @"?2004l" npaste = npaste + 1
+//@ ensures npaste == 1
